@@ -135,7 +135,7 @@ func c08r3(c *core.Ctx) {
 		}
 		core.Instrs(f, func(i ssa.Instruction) {
 			if r, ok := i.(*ssa.Return); ok {
-				for _, res := range r.Results {
+				for _, res := range res(r) {
 					if core.TypeIs(res.Type(), "net.Conn") && fromRawSocket(res) {
 						c.Bad("raw-socket-returned@"+fname(f), r.Pos(), "a Connection method returns the raw socket")
 					}
